@@ -1,5 +1,6 @@
 #!/bin/bash
 # Commits NEW untracked hook files in /repo (verif_export_*.go starting with //go:build verif), one commit per property.
+exec 9>/var/tmp/wv-repo-git.lock; flock 9   # one git writer in /repo at a time
 cd /repo || exit 1
 export GOFLAGS=-mod=mod GOPROXY=off GOSUMDB=off GOTOOLCHAIN=local
 git status --porcelain | grep '^?? ' | cut -c4- | while read f; do
